@@ -1,5 +1,5 @@
 // Bounded stand-in for C09: exact variants on INEXACT double weights (uniform doubles in [1e-3,1e3] and
-// decimal fractions k/10, k/100).  Validity (C01) must hold exactly; the returned value must equal the
+// decimal fractions k/10, k/100, and small near-tie weights k*1e-3 + j*3e-10).  Validity (C01) must hold exactly; the returned value must equal the
 // sum of the emitted cycle weights and be within a relative 1e-9 of the true minimum, which is computed
 // in exact 2^-70 fixed point (__int128) by brute force.
 #include <parmcb/config.hpp>
@@ -107,14 +107,15 @@ int main(int argc, char **argv) {
         int maxm = std::min(npairs(n), n - 1 + (th ? 11 : 9));
         int m = 2 + r.below(maxm - 1);
         TGraph g = random_graph(r, n, m, {1});
-        int kind = i % 4;
+        int kind = i % 5;
         for (auto &w : g.w) {
             if (kind == 0) w = 1e-3 + r.unit() * (1e3 - 1e-3);               // arbitrary doubles, wide range
             else if (kind == 1) w = (1 + r.below(99)) / 10.0;                  // k/10
             else if (kind == 2) w = (1 + r.below(999)) / 100.0;                // k/100
-            else w = (1 + r.below(9)) / 10.0;                                  // few distinct decimal values: many near-ties
+            else if (kind == 3) w = (1 + r.below(9)) / 10.0;                   // few distinct decimal values: many near-ties
+            else w = (1 + r.below(4)) * 1e-3 + r.below(10) * 3e-10;           // small weights whose sums differ by less than 1e-9 ABSOLUTE yet by ~1e-7 relative
         }
-        g.tag = kind == 0 ? "uniform[1e-3,1e3]" : kind == 1 ? "k/10" : kind == 2 ? "k/100" : "k/10 small";
+        g.tag = kind == 0 ? "uniform[1e-3,1e3]" : kind == 1 ? "k/10" : kind == 2 ? "k/100" : kind == 3 ? "k/10 small" : "k*1e-3+j*3e-10";
         I128 opt; bool ho = exact_opt(g, opt);
         for (int v = 0; v < 6; v++) {
             Verdict vd = check_one(g, v, ho, opt);
@@ -126,7 +127,7 @@ int main(int argc, char **argv) {
         if (st.samples.size() < 3 && cyclomatic(g) >= 3) st.sample(g.str());
     }
     st.print("e3_inexact", false,
-            "seeded simple graphs n<=9/10, dimension<=9/11, weights: uniform doubles in [1e-3,1e3], k/10, k/100, and k/10 with k<=9 (many near-ties); six exact variants (sequential + real oneTBB); oracle = brute force in exact 2^-70 fixed point; non-trivial = dimension >= 2",
+            "seeded simple graphs n<=9/10, dimension<=9/11, weights: uniform doubles in [1e-3,1e3], k/10, k/100, k/10 with k<=9 (many near-ties), and k*1e-3 + j*3e-10 (sums closer than 1e-9 absolutely, not relatively); six exact variants (sequential + real oneTBB); oracle = brute force in exact 2^-70 fixed point; non-trivial = dimension >= 2",
             std::string("graphs=") + std::to_string(N));
     return 0;
 }
